@@ -23,12 +23,12 @@ def logical_document(names=("OBJ", "EXP")):
     return dict(
         pairs=[("survey", "sdss"), ("version", "v1 2 3"), ("count", "17")],
         enum=("COLOR", ["RED", "GREEN", "BLUE"]),
-        structs=[(a, [("id", "int", None), ("mag", "float", 2), ("name", "char", "var"), ("flag", "COLOR", None), ("tags", "char", (2, 5))]),
+        structs=[(a, [("id", "int", None), ("mag", "float", 2), ("name", "char", "var"), ("flag", "COLOR", None), ("tags", "char", (2, 5)), ("kinds", "char", (3, "var"))]),
                  (b, [("n", "long", None), ("ratio", "double", None), ("label", "char", 8)])],
-        rows=[(a, [1, [1.5, -2.25], "alpha", "RED", ["x", "yy"]]),
+        rows=[(a, [1, [1.5, -2.25], "alpha", "RED", ["x", "yy"], ["sdss", "apogee-south-spare", "z 1"]]),
               (b, [2 ** 62 + 1, 0.125, "first"]),
-              (a, [2, [0.0, 3.0], "be ta", "BLUE", ["", "q#r"]]),
-              (a, [3, [7.0, 8.0], "g", "GREEN", ["a b", "z"]]),
+              (a, [2, [0.0, 3.0], "be ta", "BLUE", ["", "q#r"], ["b", "aaaa-long-long-long-long", "c"]]),
+              (a, [3, [7.0, 8.0], "g", "GREEN", ["a b", "z"], ["m", "", "zz"]]),
               (b, [-(2 ** 53) - 1, -4.5, "se cond"])])
 
 
@@ -40,7 +40,9 @@ def render(doc, opts, rng_bits=0):
     if o["comment_lines"]:
         lines.append("# a comment line")
     for pi, (k, v) in enumerate(doc["pairs"]):
-        lines.append(("   " if (o["indent"] and pi % 2) else "") + k + sep + v)
+        # trailing comments on pair lines: after blanks, or after a tab ("arbitrary blanks and tabs")
+        tc = ["  # about " + k, "\t# who was there", ""][pi % 3] if o["trailing_comments"] else ""
+        lines.append(("   " if (o["indent"] and pi % 2) else "") + k + sep + v + tc)
         if o["blank_lines"]:
             lines.append("")
         if o["comment_lines"]:
@@ -61,7 +63,7 @@ def render(doc, opts, rng_bits=0):
             if dim == "var":
                 d += lb + rb
             elif isinstance(dim, tuple):
-                d += lb + str(dim[0]) + rb + lb + str(dim[1]) + rb
+                d += lb + str(dim[0]) + rb + lb + ("" if dim[1] == "var" else str(dim[1])) + rb
             elif dim is not None:
                 d += lb + str(dim) + rb
             body.append(d + ";")
@@ -104,7 +106,7 @@ def render(doc, opts, rng_bits=0):
         else:
             line = sep.join(toks)
         if o["trailing_comments"]:
-            line += "  # trailing \"quoted\" comment" if ri % 2 else "   # plain"
+            line += ["   # plain", "  # trailing \"quoted\" comment", "\t# after a tab"][ri % 3]
         if o["indent"]:
             line = ["  ", "\t", ""][ri % 3] + line
         lines.append(line)
